@@ -56,6 +56,25 @@ func runC16(c *Ctx) {
 			return
 		}
 		c.Require("C16.R1 snapshot-protocol", "snapshots ≺ command.Execute", p.InstrPos(cmd), "event snapshot and store snapshot are taken before the command runs", instrDominates(evSnap, cmd) && instrDominates(stSnap, cmd), "")
+		// nothing else that can log events or write state runs between the snapshots and the
+		// command: a restore rolls back exactly what the command did, not what a module's
+		// before-command hook (fee deduction and its event) did just before it
+		for _, snap := range []ssa.CallInstruction{evSnap, stSnap} {
+			for _, call := range AllCallsDeep(exec) {
+				if !call.Common().IsInvoke() || call == cmd {
+					continue
+				}
+				rt := typeName(call.Common().Value.Type())
+				if !strings.HasSuffix(rt, "statemachine.Module") && !strings.HasSuffix(rt, "statemachine.Command") {
+					continue
+				}
+				if call.Common().Method.Name() == "Name" || call.Common().Method.Name() == "ID" {
+					continue
+				}
+				between := instrDominates(snap, call) && instrReachesAvoiding(snap.(ssa.Instruction), call.(ssa.Instruction), snap.(ssa.Instruction)) && instrReachesAvoiding(call.(ssa.Instruction), cmd.(ssa.Instruction), call.(ssa.Instruction))
+				c.Require("C16.R1 snapshot-protocol", CalleeName(snap.Common())+" … "+CalleeName(call.Common())+" … command.Execute", p.InstrPos(call), "no module or command hook runs between taking the snapshot and executing the command", !between, "")
+			}
+		}
 		// restore only on the error edge
 		cmdErr := Matcher{"command.Execute error", func(t *Term) bool { return t.V == cmd.Value() }}
 		failed := func(blk *ssa.BasicBlock) bool {
